@@ -101,6 +101,25 @@ FlatF == 35185
 FlatCase(g, b) == /\ g.type \notin ClosedKinds /\ b[2] = 0 /\ b[1] > 0
                   /\ \E v \in Vertices(g) : v[2] >= FlatF
 
+(***************************************************************************)
+(* Lines that fold back.  A LineString only has to start no later than it  *)
+(* ends; an interior vertex may go back in time (Z, hook, loop), or a      *)
+(* vertical stroke may be retraced.  Where such a line reverses sharply    *)
+(* in the scaled plane GEOS cuts the mitre at the tip and the buffer can   *)
+(* fall short of the requested distance there by tens of per cent (seen on *)
+(* the unchanged code: 32 % with both buffers positive, 73 % with a zero   *)
+(* time buffer).  Found by the random driver once such lines were          *)
+(* generated; for them the tolerant bounds clause has its own name.        *)
+(***************************************************************************)
+Sgn(x) == IF x > 0 THEN 1 ELSE IF x < 0 THEN -1 ELSE 0
+FoldedPath(q) ==
+    \/ \E k \in 1..(Len(q) - 1) : q[k + 1][1] < q[k][1]
+    \/ \E k \in 1..(Len(q) - 2) : q[k][1] = q[k + 1][1] /\ q[k + 1][1] = q[k + 2][1]
+                                   /\ Sgn(q[k + 1][2] - q[k][2]) * Sgn(q[k + 2][2] - q[k + 1][2]) < 0
+Folded(g) == CASE g.type = "LineString" -> FoldedPath(g.coordinates)
+               [] g.type = "MultiLineString" -> \E k \in DOMAIN g.coordinates : FoldedPath(g.coordinates[k])
+               [] OTHER -> FALSE
+
 (* ---- limb numbers for targets ---- *)
 \* the rational p/q (p >= 0, 0 < q < 2^15) as a limb number, truncated to 64 fraction bits (exact flag 0 unless it divides)
 LRatDown(p, q) ==
@@ -170,7 +189,7 @@ MonoComparable(b1, b2) == b1 = b2 \/ (Grows(b1[1], b2[1]) /\ Grows(b1[2], b2[2])
 (*              result (exact rational arithmetic on the output coordinates)]*)
 (***************************************************************************)
 Clauses == {"NegativeRejected", "ValidGeometry", "Domain", "Contains", "ExactWidening",
-            "BoundsGrowExact", "BoundsGrowRound", "BoundsGrowRoundStrict", "BoundsGrowFlat", "BoundsGrowFlatStrict", "Monotone"}
+            "BoundsGrowExact", "BoundsGrowRound", "BoundsGrowRoundStrict", "BoundsGrowFolded", "BoundsGrowFlat", "BoundsGrowFlatStrict", "Monotone"}
 
 Good(r) == r.raised = ""
 \* bounds of the result in the sense of compute_bounds (an interval spans all frequencies)
@@ -202,10 +221,13 @@ RunHolds(cl, g, b, probes, r) ==
       [] cl = "BoundsGrowExact" -> (~Negative(b) /\ HasBounds(r) /\ g.type \notin RoundKinds /\ ~FlatCase(g, b)) =>
             LET t == Target(g, b) IN GrowTo(ObsBounds(r), [i \in 1..4 |-> LInt(t[i])], b)
       \* line strings: a shortfall beyond the inscribed-polygon bound is a violation; any shortfall at all is finding F16
-      [] cl = "BoundsGrowRound" -> (~Negative(b) /\ HasBounds(r) /\ g.type \in RoundKinds /\ ~FlatCase(g, b)) =>
+      [] cl = "BoundsGrowRound" -> (~Negative(b) /\ HasBounds(r) /\ g.type \in RoundKinds /\ ~FlatCase(g, b) /\ ~Folded(g)) =>
             LET t == TargetRoundScaled(g, b) IN GrowTo(ObsBounds(r), [i \in 1..4 |-> LRatDown(t[i], CapD)], b)
       [] cl = "BoundsGrowRoundStrict" -> (~Negative(b) /\ HasBounds(r) /\ g.type \in RoundKinds /\ ~FlatCase(g, b)) =>
             LET t == Target(g, b) IN GrowTo(ObsBounds(r), [i \in 1..4 |-> LInt(t[i])], b)
+      \* the same tolerant target for line strings that fold back (open finding of its own)
+      [] cl = "BoundsGrowFolded" -> (~Negative(b) /\ HasBounds(r) /\ g.type \in RoundKinds /\ ~FlatCase(g, b) /\ Folded(g)) =>
+            LET t == TargetRoundScaled(g, b) IN GrowTo(ObsBounds(r), [i \in 1..4 |-> LRatDown(t[i], CapD)], b)
       \* zero frequency buffer at frequencies >= 2.25 MHz (any shapely kind): same split, bound 1 - cos(pi/8)
       [] cl = "BoundsGrowFlat" -> (~Negative(b) /\ HasBounds(r) /\ FlatCase(g, b)) =>
             LET t == TargetScaled(g, b, FlatN, FlatD) IN GrowTo(ObsBounds(r), [i \in 1..4 |-> LRatDown(t[i], FlatD)], b)
